@@ -62,6 +62,38 @@ async def _run_hist(history, via):
     return outs
 
 
+async def _run_two(unsup, history, who):
+    """Two physical devices (ecoMAX and ecoSTER) behind one connection share the write queue; step k of the history is announced
+    to device who[k].  Per step: the kinds queued, each checked to be addressed to the announcing device."""
+    from pyplumio.devices.ecomax import EcoMAX
+    from pyplumio.devices.ecoster import EcoSTER
+    from pyplumio.structures.network_info import NetworkInfo
+    q = asyncio.Queue()
+    devs = [EcoMAX(q, network=NetworkInfo()), EcoSTER(q, network=NetworkInfo())]
+    for d in devs:
+        d.data["frame_errors"] = list(unsup)
+    outs = [[], []]
+    for step, ann in enumerate(history):
+        dev = devs[who[step]]
+        try:
+            await dev.dispatch("frame_versions", {c: v for c, v in ann})
+        except Exception as e:  # noqa: BLE001
+            outs[who[step]].append(["exception", type(e).__name__])
+            continue
+        for _ in range(6):
+            pending = [t for d in devs for t in d.tasks if not t.done()]
+            if not pending:
+                break
+            await asyncio.gather(*pending, return_exceptions=True)
+        await asyncio.sleep(0)
+        o = []
+        while not q.empty():
+            fr = q.get_nowait()
+            o.append(int(fr.frame_type) if int(fr.recipient) == int(dev.address) else ["wrong-recipient", int(fr.frame_type), int(fr.recipient)])
+        outs[who[step]].append(o)
+    return outs
+
+
 async def _run(unsup, history, via, sources=None):
     from pyplumio.devices.ecomax import EcoMAX
     from pyplumio.frames.messages import RegulatorDataMessage, SensorDataMessage
@@ -149,6 +181,9 @@ class C15(Prop):
                 k = rng.randrange(0, len(hist) + 1)
                 h2 = [[0, a] for a in hist[:k]] + [[1, unsup]] + [[0, a] for a in hist[k:]]
                 cases.append({"kind": "hist:" + ("dispatch" if i % 2 else "sensor-frame"), "hist": h2})
+            elif i % 3 == 1 and i % 2:
+                # an ecoMAX and an ecoSTER behind the same connection: each keeps its own record and is asked itself
+                cases.append({"kind": "two-devices", "unsup": unsup, "history": hist, "who": [rng.randrange(2) for _ in hist]})
             elif i % 3 == 1:
                 cases.append({"kind": "dispatch" if i % 2 else "sensor-frame", "unsup": unsup, "history": hist})
             else:
@@ -163,6 +198,8 @@ class C15(Prop):
         return cases
 
     def run_impl(self, c):
+        if c["kind"] == "two-devices":
+            return vloop.run(_run_two, c["unsup"], c["history"], c["who"])
         if "hist" in c:
             return vloop.run(_run_hist, c["hist"], "dispatch" if c["kind"].endswith("dispatch") else "frame")
         return vloop.run(_run, c["unsup"], c["history"], "dispatch" if c["kind"] == "dispatch" else "frame", c.get("sources"))
@@ -171,7 +208,19 @@ class C15(Prop):
     def _h(c):
         return [[e[0], (bytes(e[1]) if e[0] == 1 else e[1])] for e in c["hist"]]
 
+    def _split(self, c):
+        return [[a for a, w in zip(c["history"], c["who"]) if w == k] for k in (0, 1)]
+
     def model_many(self, cases):
+        two = [c for c in cases if c["kind"] == "two-devices"]
+        if two:
+            rest = [c for c in cases if c["kind"] != "two-devices"]
+            r_rest = iter(self.model_many(rest)) if rest else iter([])
+            r_two = iter(model.call_many("announce_all", [[bytes(c["unsup"]), h] for c in two for h in self._split(c)]))
+            out = []
+            for c in cases:
+                out.append([next(r_two)[0], next(r_two)[0]] if c["kind"] == "two-devices" else next(r_rest))
+            return out
         a = [c for c in cases if "hist" not in c]
         b = [c for c in cases if "hist" in c]
         ra = iter(model.call_many("announce_all", [[bytes(c["unsup"]), c["history"]] for c in a]))
@@ -179,6 +228,24 @@ class C15(Prop):
         return [next(rb) if "hist" in c else next(ra)[0] for c in cases]
 
     def spec_many(self, cases, behaviours):
+        two = [(c, b) for c, b in zip(cases, behaviours) if c["kind"] == "two-devices"]
+        if two:
+            rest = [(c, b) for c, b in zip(cases, behaviours) if c["kind"] != "two-devices"]
+            r_rest = iter(self.spec_many([c for c, _ in rest], [b for _, b in rest])) if rest else iter([])
+            args, flags = [], []
+            for c, b in two:
+                for h, outs in zip(self._split(c), b):
+                    flags.append(any(isinstance(x, list) for o in outs for x in o) or any(o and o[0] == "exception" for o in outs))
+                    args.append([bytes(c["unsup"]), h, [bytes([x for x in o if isinstance(x, int)]) for o in outs]])
+            r_two = iter(zip(model.call_many("P15", args), flags))
+            out = []
+            for c, b in zip(cases, behaviours):
+                if c["kind"] == "two-devices":
+                    (r0, f0), (r1, f1) = next(r_two), next(r_two)
+                    out.append(bool(r0) and bool(r1) and not f0 and not f1)
+                else:
+                    out.append(next(r_rest))
+            return out
         bad = [any(o and o[0] == "exception" for o in b) for b in behaviours]
         clean = lambda b: [bytes(o) if not (o and o[0] == "exception") else b"" for o in b]
         a = [(c, b) for c, b in zip(cases, behaviours) if "hist" not in c]
